@@ -1,6 +1,6 @@
 SPECIFICATION Spec
 CONSTANTS Family = "algebra"
-          MaxEdits = 2
+          MaxEdits = 1
           UnivKinds = {"complete"}
           WithGt = FALSE
 INVARIANT AlgebraHolds
